@@ -6,13 +6,15 @@ use crate::interpreter::RuntimeErrorKind;
 use crate::quantity::Quantity;
 use crate::typechecker::type_scheme::TypeScheme;
 use crate::value::Value;
+use compact_str::CompactString;
 
 pub fn str_length(
     _ctx: &mut FfiContext,
     mut args: Args,
     _return_type: &TypeScheme,
 ) -> Result<Value, Box<RuntimeErrorKind>> {
-    let len = string_arg!(args).len();
+    // Strings are sequences of characters: all lengths and positions are in characters
+    let len = string_arg!(args).chars().count();
     return_scalar!(len as f64)
 }
 
@@ -41,9 +43,15 @@ pub fn str_slice(
     let end = scalar_arg!(args).to_f64() as usize;
     let input = string_arg!(args);
 
-    let output = input.get(start..end).unwrap_or_default();
+    // `start` and `end` are character positions (see `str_length`). An invalid
+    // range yields an empty string.
+    let output: CompactString = if start <= end && end <= input.chars().count() {
+        input.chars().skip(start).take(end - start).collect()
+    } else {
+        CompactString::default()
+    };
 
-    return_string!(borrowed = output)
+    return_string!(owned = output)
 }
 
 pub fn chr(
